@@ -393,9 +393,6 @@ func runCase(c reg.Case, out *reg.Out) {
 		out.Cov("op." + op[0])
 		out.Line("%s", line)
 	}
-	if or.tainted {
-		out.Cov("case.dedup-switch")
-	}
 }
 
 func runOp(cs *caseState, or *oracle, bo *bareOracle, op []string, out *reg.Out) (string, bool) {
@@ -604,23 +601,24 @@ func addNew(xs []int, x int) []int {
 // counts.  For one peer:
 //
 //   * a request is "in progress" from its first operation until its next finish / finish-with-error
-//     / clear; its dedup scope is the key last assigned to it since then (0 = the default scope);
-//   * it "traversed a block" in a scope when it reported the link with data present or listed it in
-//     its ignore list while in that scope;
+//     / clear; it belongs to one dedup scope at a time: the key last assigned to it since it began
+//     (0 = the default scope).  Assigning a key moves the request, with everything it traversed so
+//     far, into that scope;
+//   * it "traversed a block" when it reported the link with data present or listed it in its ignore
+//     list since it began;
 //   * dup-send:      a block is transmitted in a scope although it was already transmitted in that
-//                    scope and, ever since, some request that traversed it there was in progress;
+//                    scope and, ever since, some request of the scope that traversed it was in progress;
 //   * no-resend:     a present block is NOT transmitted although no in-progress request of the scope
 //                    has traversed it (the request's own do-not-send-first-blocks window is exempt);
 //   * complete-iff:  FinishRequest reports RequestCompletedFull although the request met a missing
 //                    block since it began, or Partial although it met none.
 //
-// Known finding (known_findings.json): assigning a dedup key to a request that already recorded
-// traversals / an ignore list / another key leaves its old records behind.  Every failure in a case
-// after such an assignment is reported under class `dedup-switch`.
+// History: before /repo fix "DedupKey moves the request's records" the real code failed these
+// checks after a dedup-key assignment in mid-request (corpus/C19/fixed.cases).
 type reqSpec struct {
 	open       bool
 	scope      int
-	wb         map[[2]int]bool // (scope, link) traversed with block since the request began
+	wb         map[int]bool // links traversed with block since the request began
 	sawMissing bool
 	travs      int64
 	skip       int64
@@ -628,10 +626,9 @@ type reqSpec struct {
 }
 
 type oracle struct {
-	out     *reg.Out
-	reqs    map[int]*reqSpec
-	tx      map[[2]int]int // (scope, link) -> transmissions in the current busy period
-	tainted bool
+	out  *reg.Out
+	reqs map[int]*reqSpec
+	tx   map[[2]int]int // (scope, link) -> transmissions in the current busy period
 }
 
 func newOracle(out *reg.Out) *oracle {
@@ -641,7 +638,7 @@ func newOracle(out *reg.Out) *oracle {
 func (o *oracle) req(r int) *reqSpec {
 	q := o.reqs[r]
 	if q == nil {
-		q = &reqSpec{wb: map[[2]int]bool{}}
+		q = &reqSpec{wb: map[int]bool{}}
 		o.reqs[r] = q
 	}
 	q.open = true
@@ -649,16 +646,13 @@ func (o *oracle) req(r int) *reqSpec {
 }
 
 func (o *oracle) fail(class, format string, a ...interface{}) {
-	if o.tainted {
-		class = "dedup-switch"
-	}
 	o.out.Fail(class, format, a...)
 }
 
-// busy: some in-progress request has traversed (scope, link) with a block
+// busy: some in-progress request of the scope has traversed the link with a block
 func (o *oracle) busy(sl [2]int) bool {
 	for _, q := range o.reqs {
-		if q.open && q.wb[sl] {
+		if q.open && q.scope == sl[0] && q.wb[sl[1]] {
 			return true
 		}
 	}
@@ -684,11 +678,19 @@ func (o *oracle) dedup(r, k int) {
 	}
 	q := o.req(r)
 	if q.dirty {
-		o.tainted = true
 		o.out.Cov("dedup.mid-request")
 	}
+	oldScope := q.scope
 	q.scope = k
 	q.dirty = true
+	if oldScope != k {
+		// the request left its old scope: blocks only it held there are no longer in use there
+		for l := range q.wb {
+			if !o.busy([2]int{oldScope, l}) {
+				o.tx[[2]int{oldScope, l}] = 0
+			}
+		}
+	}
 }
 
 func (o *oracle) ignore(r int, ls []int) {
@@ -698,7 +700,7 @@ func (o *oracle) ignore(r int, ls []int) {
 		if !o.busy(sl) {
 			o.tx[sl] = 0
 		}
-		q.wb[sl] = true
+		q.wb[l] = true
 	}
 	q.dirty = true
 }
@@ -741,10 +743,10 @@ func (o *oracle) trav(r, l int, present, sent bool) {
 		o.tx[sl]++
 	}
 	if present {
-		if q.wb[sl] {
+		if q.wb[l] {
 			o.out.Cov("trav.same-request-again")
 		}
-		q.wb[sl] = true
+		q.wb[l] = true
 	} else {
 		if q.sawMissing {
 			o.out.Cov("trav.missing-again")
@@ -771,9 +773,10 @@ func (o *oracle) finish(r int, observed, full bool) {
 	default:
 		o.out.Cov("end.scope-last-user")
 	}
-	old := q.wb
-	*q = reqSpec{wb: map[[2]int]bool{}}
-	for sl := range old {
+	old, oldScope := q.wb, q.scope
+	*q = reqSpec{wb: map[int]bool{}}
+	for l := range old {
+		sl := [2]int{oldScope, l}
 		if !o.busy(sl) {
 			o.tx[sl] = 0
 			o.out.Cov("oracle.block-released")
